@@ -8,10 +8,10 @@ PROPS["C19"] = dict(
     check_module="Record.Check",
     check_fn="check_case",
     streams=[dict(name="main", quick=240, thorough=6000), dict(name="wrap", quick=60, thorough=1000),
-             dict(name="notx", quick=100, thorough=2000), dict(name="bulk", quick=2, thorough=32, shard=1)],
+             dict(name="notx", quick=100, thorough=2000), dict(name="bulk", quick=2, thorough=32, shard=1), dict(name="genesis", quick=40, thorough=800)],
     rule="histories of 4-18 (thorough: 4-44) steps = transactions of 1-4 create-record messages by 3 creators "
          "(contents from a pool of 4 so byte-identical records recur; ~10% invalid messages) and block boundaries; "
-         "stream 'wrap' presets the 32-bit counter 1..6 below 2^32 so that it wraps inside the history; stream 'bulk' = one transaction of 257..336 (thorough ..656) byte-identical records followed by ordinary traffic, so that ids differ in more than the low byte of the counter; stream 'notx' executes two thirds of the transactions with empty tx bytes (messages run by a governance proposal), so byte-identical records share the tx hash and only the counter separates their ids; non-trivial = the same (creator, contents) is created at least twice; distinct = by hash of the history",
+         "stream 'wrap' presets the 32-bit counter 1..6 below 2^32 so that it wraps inside the history; stream 'bulk' = one transaction of 257..336 (thorough ..656) byte-identical records followed by ordinary traffic, so that ids differ in more than the low byte of the counter; stream 'genesis' starts the chain from a genesis holding 1-6 records (loaded through the module's InitGenesis, each carrying the hash of the empty tx bytes) and then creates the same and other records outside a transaction at the same ordinal positions; stream 'notx' executes two thirds of the transactions with empty tx bytes (messages run by a governance proposal), so byte-identical records share the tx hash and only the counter separates their ids; non-trivial = the same (creator, contents) is created at least twice; distinct = by hash of the history",
     codes={0: "readback-or-duplicate-id"},
     explain={0: "a query by a returned id did not return exactly the submitted record, or an id was returned twice"},
     trusted_base=["SHA-256 modelled as injective: the id is identified with its pre-image (record bytes, counter); "
